@@ -249,6 +249,8 @@ SWAN_DIRS = {
     "D4s": [0.0, 90.0, 180.0, 270.0],
     "D4u": [265.0, 355.0, 85.0, 175.0],
     "D4d": [292.5, 202.5, 112.5, 22.5],
+    "D4r": [355.0, 85.0, 175.0, 265.0],           # rotated by one: the sorting permutation is not its own inverse
+    "D5r": [200.0, 272.0, 344.0, 56.0, 128.0],
     "D6": [15.0, 75.0, 135.0, 195.0, 255.0, 315.0],
 }
 
@@ -1042,7 +1044,7 @@ def cases_for(tier, seed):
     # ---- SWAN single file
     locs = ["1", "2diag", "2lon", "2lat", "3", "4lonmajor", "4latmajor"] + ([] if quick else ["6latmajor", "6lonmajor"])
     nfs = [2, 3] if quick else [2, 3, 4]
-    dsets = ["D4s", "D4u", "D4d", "D3"] + ([] if quick else ["D2", "D6"])
+    dsets = ["D4s", "D4u", "D4d", "D3", "D4r", "D5r"] + ([] if quick else ["D2", "D6"])
     n = 0
     for perm in [None] + P3:
         for loc in locs:
